@@ -59,6 +59,9 @@ pub enum Op {
     Kill { w: u16 },
     /// answer every outstanding WorkerFaulted with a fresh worker end + Worker interest
     Replace,
+    /// 18..40 alternating pause / resume commands queued at once (ends resumed), as a client that
+    /// issues commands while the accept thread is busy produces them
+    CtlBurst { n: u8 },
 }
 
 #[derive(Clone, Debug, Serialize, Deserialize, PartialEq)]
@@ -78,6 +81,7 @@ pub enum Prop {
     C03,
     C04,
     C05,
+    C06,
     C08,
 }
 
@@ -138,6 +142,8 @@ struct DispatchRec {
     sat_before: Vec<bool>,
     /// workers that have been saturated at any time up to and including this dispatch
     ever_sat_after: Vec<bool>,
+    /// worker handles in the accept loop's rotation when this dispatch happened
+    in_rot_before: usize,
 }
 
 struct Model {
@@ -161,6 +167,10 @@ struct Model {
     rr_checked: u32,
     /// a guard of a dead incarnation was dropped (its late notification may legitimately re-open the replacement)
     zombie_finished: bool,
+    /// dispatches before this index are not used by the pair rule (a handle was removed since)
+    pair_barrier: usize,
+    pair_checked: u32,
+    pair_after_restart: u32,
 }
 
 pub fn trace_on() -> bool {
@@ -237,7 +247,8 @@ impl Model {
                         self.rr_bits[w] = Tri::No;
                     }
                     let ever_sat_after: Vec<bool> = self.workers.iter().map(|s| s.ever_saturated).collect();
-                    self.dispatches.push(DispatchRec { worker: w, sat_before, ever_sat_after });
+                    let in_rot_before = self.workers.iter().filter(|s| s.in_rotation).count();
+                    self.dispatches.push(DispatchRec { worker: w, sat_before, ever_sat_after, in_rot_before });
                     if load > self.limit {
                         let msg = format!("worker {} has {} connections in progress (queued {} + live {}), limit {}", w, load, self.workers[w].queued.len(), self.workers[w].live.len(), self.limit);
                         if !self.any_kill {
@@ -427,6 +438,9 @@ impl Engine {
             limit_constrained: false,
             rr_cursor: 0,
             rr_bits: vec![Tri::Yes; c.workers],
+            pair_barrier: 0,
+            pair_checked: 0,
+            pair_after_restart: 0,
             rr_checked: 0,
             zombie_finished: false,
         };
@@ -561,8 +575,10 @@ impl Engine {
         }
         // worker-fault reports
         drop(m);
+        let mut any_report = false;
         for cmd in self.stepped.drain_cmds() {
             if let hv::Cmd::WorkerFaulted(idx) = cmd {
+                any_report = true;
                 let mut m = self.model.borrow_mut();
                 if idx >= m.workers.len() || m.workers[idx].alive {
                     m.flag(Prop::C08, "C08/false-fault-report", format!("WorkerFaulted({}) reported for a worker that is alive", idx));
@@ -576,16 +592,61 @@ impl Engine {
                 }
             }
         }
+        {
+            // pair rule (also holds across a worker's restart): with a limit that never
+            // constrains, two consecutive connections go to two different workers whenever the
+            // rotation held at least two handles at the first one and no handle was removed
+            // since (a removal moves the last handle into the freed position)
+            let mut m = self.model.borrow_mut();
+            if any_report {
+                m.pair_barrier = m.dispatches.len();
+            } else if m.limit >= 64 {
+                for j in log_before.max(1)..m.dispatches.len() {
+                    if j - 1 < m.pair_barrier {
+                        continue;
+                    }
+                    let (aw, arot, bw) = (m.dispatches[j - 1].worker, m.dispatches[j - 1].in_rot_before, m.dispatches[j].worker);
+                    if arot >= 2 {
+                        m.pair_checked += 1;
+                        if m.workers.iter().any(|s| s.kills > 0 && s.alive && s.in_rotation) {
+                            m.pair_after_restart += 1;
+                        }
+                        if aw == bw {
+                            let msg = format!("dispatches #{} and #{} both went to worker {} although the rotation held {} handles, no worker was near its limit ({}) and no handle was removed in between", j, j + 1, aw, arot, m.limit);
+                            m.flag(Prop::C04, "C04/same-worker-twice", msg);
+                        }
+                    }
+                }
+            }
+        }
         Some(step)
     }
 
     /// run to quiescence: blocked in poll with an empty waker queue
     fn quiesce(&mut self) -> bool {
+        let mut blocked_with_commands = 0;
         for _ in 0..SPIN_STEPS {
             match self.step() {
                 None => return false,
                 Some(Step::Blocked) if self.wq.is_empty() => return true,
                 Some(Step::Exited) => return true,
+                Some(Step::Blocked) => {
+                    // blocked in poll although commands are queued: nothing will wake it for them
+                    blocked_with_commands += 1;
+                    if blocked_with_commands >= 3 {
+                        let mut m = self.model.borrow_mut();
+                        let pending = m.pending_ctl.clone();
+                        let msg = format!("the accept loop blocks in poll although {} command(s) are still queued for it ({:?}...): they were queued before its last wake-up and nothing will wake it for them", pending.len(), &pending[..pending.len().min(4)]);
+                        m.flag(Prop::C05, "C05/commands-stuck", msg.clone());
+                        if pending.contains(&Ctl::Stop) {
+                            m.flag(Prop::C06, "C06/stop-not-processed", msg.clone());
+                        }
+                        m.flag(Prop::C08, "C08/commands-stuck", msg);
+                        drop(m);
+                        self.aborted = Some("commands stuck".into());
+                        return false;
+                    }
+                }
                 _ => {}
             }
         }
@@ -630,6 +691,7 @@ impl Engine {
                 m.flag(Prop::C05, "C05/stranded", msg.clone());
             }
             m.flag(Prop::C03, "C03/lost-wakeup", msg.clone());
+            m.flag(Prop::C04, "C04/below-limit-skipped", msg.clone());
             m.flag(Prop::C01, "C01/never-served", msg);
             return;
         }
@@ -690,6 +752,22 @@ impl Engine {
                 if !self.model.borrow().stopped {
                     self.wq.wake(Interest::Resume);
                     self.model.borrow_mut().pending_ctl.push(Ctl::Resume);
+                }
+            }
+            Op::CtlBurst { n } => {
+                if !self.model.borrow().stopped && !self.model.borrow().pending_ctl.contains(&Ctl::Stop) {
+                    let count = 18 + 2 * (n as usize % 12);
+                    for i in 0..count {
+                        if i % 2 == 0 {
+                            self.wq.wake(Interest::Pause);
+                            self.model.borrow_mut().pending_ctl.push(Ctl::Pause);
+                        } else {
+                            self.wq.wake(Interest::Resume);
+                            self.model.borrow_mut().pending_ctl.push(Ctl::Resume);
+                        }
+                    }
+                    self.label("pause");
+                    self.label("ctl-burst");
                 }
             }
             Op::Stop => {
@@ -956,6 +1034,8 @@ async fn run_async(c: &Case, prop: Prop) -> CaseResult {
     obs.label_if(m.dispatches.len() > m.workers.len(), "dispatches>W");
     obs.label_if(m.conns.len() >= 3, "conns>=3");
     obs.label_if(m.workers.iter().any(|s| s.reported > 0), "fault-discovered");
+    obs.label_if(m.pair_checked > 0, "pair-rule-checked");
+    obs.label_if(m.pair_after_restart > 0, "pair-rule-after-restart");
     obs.label_if(m.conns.iter().any(|c| c.state == CState::DroppedNoWorkers), "dropped-no-workers");
     obs.label_if(c.listeners.contains(&LKind::Uds), "uds");
     Ok(obs)
